@@ -28,7 +28,7 @@ func init() {
 			{Name: "S-STREAM/accepted-frames", Weight: 1, Run: func(e *Env) { e.RuleRename = [2]string{"C07.", "C11.S"}; c07Run(e, false) }}},
 		Quick:    200000,
 		Thorough: 3000000,
-		Require:  []string{"arrival.whileHandlerBlocked", "order.loopReplacedBefore", "readerLoop.replacedWhileInHandler"},
+		Require:  []string{"nested.nonConfirmableRequest", "mid.peerRequestEqualsOwnOutstanding", "arrival.whileHandlerBlocked", "order.loopReplacedBefore", "readerLoop.replacedWhileInHandler", "monitor.dropsMessage"},
 		Assume: []string{
 			"'processing continues while it waits' is judged as: a nested operation has returned at the quiescent point after its answer was handed to the connection (parked goroutines released first)",
 			"completeness (every accepted message dispatched) is only demanded of runs in which the connection stays open; order only of runs in which no handler blocked",
